@@ -141,6 +141,12 @@ pub fn main(args: &[String]) {
     let mut k = 0; while k < n_gen { let (wasm, _) = gen::module(&mut r, &tab, &gcfg); if amod::validate(&wasm, feats).is_err() { continue; } inputs.push((format!("gen{}", k), wasm)); k += 1; }
     // a module with more than 127 and one with more than 16383 function bodies (the count LEB grows)
     for n in [130usize, 16390] { let mut wat = String::from("(module (func (export \"f\") (result i32) i32.const 7)"); for _ in 0..n { wat.push_str(" (func)"); } wat.push(')'); if let Ok(b) = wat::parse_str(&wat) { inputs.push((format!("many-functions-{}", n), b)); } }
+    // function-count boundaries of the count LEB, with the total split differently between imports and bodies,
+    // and modules whose number of bodies crosses the boundary only after GC (unused functions)
+    for (ni, nl, unused) in [(120usize, 10usize, 0usize), (0, 127, 0), (0, 128, 0), (127, 1, 0), (128, 1, 0), (1, 127, 0), (3, 125, 10), (0, 120, 20), (200, 3, 0)] {
+        let mut wat = String::from("(module"); for i in 0..ni { wat.push_str(&format!(" (import \"env\" \"f{}\" (func))", i)); }
+        for i in 0..nl { wat.push_str(&format!(" (func (export \"e{}\") (result i32) i32.const {})", i, i)); } for _ in 0..unused { wat.push_str(" (func nop)"); } wat.push(')');
+        if let Ok(b) = wat::parse_str(&wat) { inputs.push((format!("count-boundary-{}i-{}l-{}u", ni, nl, unused), b)); } }
     let (mut n_cases, mut n_pairs, mut n_funcs, mut n_unmodelled) = (0u64, 0u64, 0u64, 0u64);
     let (mut n_gc, mut n_edit) = (0u64, 0u64);
     for (name, wasm) in &inputs {
